@@ -105,7 +105,11 @@ class Runner:
         tk.packets = None
         if tk.code == 200 and tk.body is not None and tk.exc is None:
             try:
-                tk.packets = decode_payload(tk.text())
+                text = tk.payload_text()
+                if getattr(s, 'jsonp', None) is not None:
+                    from vf import jsonp
+                    idx, text, legacy = jsonp.parse(text)
+                tk.packets = decode_payload(text)
             except Exception:
                 tk.packets = None
                 tk.garbled = True
@@ -206,7 +210,8 @@ class Runner:
         return s
 
     def poll(self, s):
-        tk = self.sim.poll(s.h)
+        tk = self.sim.poll(s.h, {'j': str(s.jsonp)} if getattr(
+            s, 'jsonp', None) is not None else None)
         tk.sess = s.n
         s.polls.append(tk)
         tk.on_done = lambda t: self._on_poll_done(s, t)
